@@ -18,6 +18,26 @@ import vf
 PROPS = ["C01", "C02", "C03"]
 
 ENTRIES = {
+    "C01": {
+        "text": "spec/HvValidate.tla builds a symbolic extended header (block hash = header record, validators_hash = "
+                "validator sequence, data_hash = DAH record, signature = [key, vote message]) for every configuration "
+                "of 1..4 validators (thorough 1..5) with sorted powers from {1,2,3}, every role assignment {commit, nil, "
+                "absent} holding more than 2/3, app versions 1..7 and several square widths, and applies every "
+                "single-field mutation family of the statement (16 header fields with and without re-binding the block "
+                "hash, DAH row / column roots, validator key / power, commit block-id hash / parts / height / round, "
+                "per-entry signature / timestamp / address, plus the entry flag). TLC checks that an ideal validator "
+                "accepts the honest header and rejects every listed mutation, and that the model of the Rust "
+                "algorithm is never stricter and is laxer only outside the light algorithm's reach; the as-is "
+                "deviation (AlgBindsAll) is re-derived on each run. Every case is rebuilt with real ed25519 keys, real "
+                "hashes and real (dummy-data) squares and run through validate() and decode_and_validate(encode()).",
+        "design_ref": "7 C01",
+        "note": "Mutations of absent entries, of validator address / proposer priority inside the set (not covered by "
+                "the validator-set hash, not named by the property) and multi-field forgeries other than re-binding "
+                "the block hash are not generated. Known findings: entries after quorum / nil votes / entry addresses "
+                "are not bound by light verification.",
+        "technique": "symbolic TLA+ model checked by TLC; TLC-generated (configuration, mutation) cases with spec-decided "
+                     "verdicts replayed into Rust with real keys and hashes",
+    },
     "C03": {
         "text": "spec/HeaderVerify.tla models commits symbolically (signature = [key, vote message], "
                 "verification = equality). TLC enumerates validator sets of 1..3 members (thorough 1..5) with "
@@ -86,8 +106,42 @@ def run_c03(ck):
                        "powers beyond the palette are reached by a common scale factor up to MAX_TOTAL_VOTING_POWER"]
 
 
-RUNNERS = {"C03": run_c03}
-MODELS = {"C03": "commit"}
+# --------------------------------------------------------------------------------------- C01
+VW_QUICK = "{10002, 20004, 30008, 40002, 50016, 60004, 70008}"
+VW_THOROUGH = "{10002, 10256, 20004, 30008, 30064, 40002, 50016, 50256, 60004, 60512, 61024, 70008, 70128}"
+
+
+def run_c01(ck):
+    hb = ck.build("h-header")
+    consts = ({"MaxNStruct": 3, "MaxNSig": 4, "Palette": "{1, 2, 3}", "VW": VW_QUICK} if ck.quick else
+              {"MaxNStruct": 4, "MaxNSig": 5, "Palette": "{1, 2, 3}", "VW": VW_THOROUGH})
+    mc_cfg = ck.cfg_with("MC_HvValidate.cfg", consts)
+    ck.tlc_mc("MC_HvValidate", mc_cfg, required_actions=[
+        "DecideHonest", "DecideHdr", "DecideHdrRebind", "DecideDah", "DecideVals", "DecideCommit", "DecideSig",
+        "DecideFlag"])
+    # as-is deviation: the light algorithm does not bind every commit entry (known findings); the
+    # counterexample is expected, its disappearance is reported
+    asis_cfg = ck.cfg_with("MC_HvValidate_asis.cfg", consts)
+    ck.tlc_mc("MC_HvValidate", asis_cfg, tag="mc_asis", workers=1, expect_violation="AlgBindsAll")
+    gen_cfg = ck.cfg_with("Gen_HvValidate.cfg", consts)
+    cases, _ = ck.tlc_gen("Gen_HvValidate", gen_cfg, "cases.ndjson", count_stats=False)
+    s = ck.harness(hb, ["replay", "validate", cases, "--seed", ck.seed], "replay")
+    ck.absorb(s, classify)
+    ck.cov["exhaustive"] = True
+    ck.cov["rule"] = ("every (honest configuration, single-field mutation) TLC generates: configurations = sorted power "
+                      "sequences x roles {commit, nil, absent} with > 2/3 committing x (app version, width); mutations = "
+                      "each header field (with and without re-binding the block hash), DAH roots, validator key / power, "
+                      "commit block id / height / round, and per non-absent entry signature / timestamp / address / flag; "
+                      "each replayed through validate() and decode_and_validate(encode()); non-trivial = distinct "
+                      "(configuration, mutation) with >= 2 validators and a mutation")
+    ck.assumptions += ["ed25519 unforgeable, SHA-256 collision free (symbolic crypto)",
+                       "the named mutation is applied to the concrete header by the harness; the harness checks that the "
+                       "concrete value changed exactly when the symbolic one did",
+                       "squares wider than 32 use synthetic DAH roots (no erasure coding)"]
+
+
+RUNNERS = {"C01": run_c01, "C03": run_c03}
+MODELS = {"C01": "validate", "C03": "commit"}
 
 
 def run(ck):
